@@ -5,12 +5,15 @@ R09.2 orientation: profile tends to the low-T vev at z -> -inf, high-T vev at z 
 R09.3 integrand assembly on one grid state: dV/dz = sum_fields dV/dphi * dphi/dz at grid.xiValues, default cardinal/z polynomial,
       Jacobian element 0 of the same grid, no rescaling between _updateGrid and the integral
 R09.5 cached grid data stay consistent under re-mapping (typestate shared with C17); R09.6 the position Jacobian of the three-scale grid is the derivative of its map (shared with C17)
-R09.4 the quadrature applies weight * coefficients * sqrt(1-chi^2) * pi/M on the z axis (shared with C16)
+R09.4 the quadrature applies weight * coefficients * sqrt(1-chi^2) * pi/M on the z axis (shared with C16): recognised structurally (weights local /
+      weights helper, `/= self.grid.M` under the test direction == 'z') or, failing that, on the terms of c16.quadrature_factors (the factor broadcast
+      onto an integrated z axis is sqrt(1 - x^2) * pi / M * ones), which does not depend on where and how the weights are built
 """
 from __future__ import annotations
 
 import ast
 import copy
+import dataclasses
 
 import sympy as sp
 
@@ -102,10 +105,66 @@ def _element_of(g: CFG, cx: Ctx, at, e, is_source):
     return None, None
 
 
+def _unzip(e):
+    """copy of e with every comprehension generator `for a, b in zip(X, Y)` spelled `for _k, a in enumerate(X)` and b replaced by Y[_k]
+    (the index form the rules read); anything else is left alone"""
+    e = copy.deepcopy(e)
+    k = 0
+    for c in ast.walk(e):
+        if not isinstance(c, (ast.ListComp, ast.GeneratorExp, ast.SetComp)):
+            continue
+        for gen in c.generators:
+            it, tg = gen.iter, gen.target
+            if not (isinstance(it, ast.Call) and isinstance(it.func, ast.Name) and it.func.id == "zip" and not it.keywords and isinstance(tg, ast.Tuple)
+                    and len(tg.elts) == len(it.args) >= 2 and all(isinstance(t, ast.Name) for t in tg.elts) and not any(isinstance(a, ast.Starred) for a in it.args)):
+                continue
+            idx = f"_zip{k}_"
+            k += 1
+            sub = {t.id: ast.Subscript(value=a, slice=ast.Name(id=idx, ctx=ast.Load()), ctx=ast.Load()) for t, a in zip(tg.elts[1:], it.args[1:])}
+            gen.target = ast.Tuple(elts=[ast.Name(id=idx, ctx=ast.Store()), tg.elts[0]], ctx=ast.Store())
+            gen.iter = ast.Call(func=ast.Name(id="enumerate", ctx=ast.Load()), args=[it.args[0]], keywords=[])
+
+            class Sb(ast.NodeTransformer):
+                def visit_Name(self, x):
+                    return copy.deepcopy(sub[x.id]) if isinstance(x.ctx, ast.Load) and x.id in sub else x
+            c.elt = Sb().visit(c.elt)
+            gen.ifs = [Sb().visit(i) for i in gen.ifs]
+    return ast.fix_missing_locations(e)
+
+
 def _strip_array(e):
     while isinstance(e, ast.Call) and (dotted(e.func) or "") in ("np.array", "np.asarray", "np.asanyarray") and len(e.args) == 1 and not e.keywords:
         e = e.args[0]
     return e
+
+
+def _lower_ifexp(fi):
+    """the function with every `x = a if c else b` / `return a if c else b` (a conditional expression as the whole right-hand side) rewritten
+    to the if / else statement it abbreviates, so that the path enumeration sees the same two branches for both spellings"""
+
+    def lower(st):
+        for fld in ("body", "orelse", "finalbody"):
+            if isinstance(getattr(st, fld, None), list) and not isinstance(st, (ast.FunctionDef, ast.AsyncFunctionDef, ast.ClassDef)):
+                setattr(st, fld, [y for x in getattr(st, fld) for y in lower(x)])
+        if isinstance(st, ast.Try):
+            for h in st.handlers:
+                h.body = [y for x in h.body for y in lower(x)]
+        v = getattr(st, "value", None)
+        if isinstance(st, (ast.Assign, ast.AnnAssign, ast.AugAssign, ast.Return)) and isinstance(v, ast.IfExp):
+            arms = []
+            for arm in (v.body, v.orelse):
+                c = copy.copy(st)
+                c.value = arm
+                arms.append(lower(c))
+            return [ast.copy_location(ast.If(test=v.test, body=arms[0], orelse=arms[1]), st)]
+        return [st]
+
+    node = copy.deepcopy(fi.node)
+    node.body = [y for x in node.body for y in lower(x)]
+    if ast.dump(node) == ast.dump(fi.node):
+        return fi
+    ast.fix_missing_locations(node)
+    return dataclasses.replace(fi, node=node)
 
 
 def r09_12(chk: Check):
@@ -118,7 +177,7 @@ def r09_12(chk: Check):
     pz, plo, phi, pwp = prm
     ex = Extractor(S, positive={f"{pwp}.widths"})
     cx = Ctx(S, fi)
-    ps = [p for p in ex.paths(fi) if p.raised is None]
+    ps = [p for p in ex.paths(_lower_ifexp(fi)) if p.raised is None]
     if len(ps) != 2:
         raise Undecided(f"wallProfile: expected scalar and broadcast branch, found {len(ps)} paths")
     z = ex.sym(pz)
@@ -176,17 +235,20 @@ def r09_3(chk: Check):
     c = cx.resolve(c, keep=set(cx.local_defs()))        # look through an extracted helper around the call
     is_int = isinstance(c, ast.Call) and isinstance(c.func, ast.Attribute) and c.func.attr == "integrate"
     w = kwarg(c, "weight", 1) if is_int else None
-    J = None
+    J = None        # the expression whose negative is the weight: a local, or (behind a helper) a constant-index element of a call
     n_w = n_p
     if w is not None:
         n_w, w = _define(g, n_p, w)
-        b = match(cx.resolve(w, keep=set(cx.local_defs())), "-__J")
-        J = b["J"] if b else None
+        wr = cx.resolve(w, keep=set(cx.local_defs()))
+        for x in ast.walk(wr):
+            if isinstance(x, (ast.Name, ast.Subscript)) and isinstance(getattr(x, "ctx", None), ast.Load) and nf(wr) == nf(ast.UnaryOp(op=ast.USub(), operand=x)):
+                J = x
+                break
     ok = is_int and kwarg(c, "axis", 0) is None or (is_int and eqx(kwarg(c, "axis", 0), "None"))
     chk.ob("R09.2", fi.where(n_p), "pressure = integrate(dV/dz, weight = -dz/dchi) over the whole grid: P = -int dz dV/dz = V(low) - V(high)", bool(ok) and J is not None,
            n(c)[:100], key="weight-sign")
     is_jac = lambda v: isinstance(v, ast.Call) and eqx(v, "self.grid.getCompactificationDerivatives()")
-    call, k = _element_of(g, cx, n_w, ast.Name(id=J, ctx=ast.Load()), is_jac) if J else (None, None)
+    call, k = _element_of(g, cx, n_w, J, is_jac) if J is not None else (None, None)
     chk.ob("R09.3", fi.where(), "dz/dchi is element 0 of self.grid.getCompactificationDerivatives() (grid points without end points)", call is not None and k == 0, key="jacobian")
     n_x, poly = _define(g, n_p, c.func.value) if is_int else (None, None)
     is_poly = isinstance(poly, ast.Call) and eqx(poly.func, "Polynomial")
@@ -208,7 +270,7 @@ def r09_3(chk: Check):
     if isinstance(dvi, ast.Call) and eqx(dvi.func, "np.sum") and dvi.args:
         ax = kwarg(dvi, "axis", 1)
         okax = ax is not None and (eqx(ax, "1") or (isinstance(ax, ast.Attribute) and ax.attr == "overFieldTypes"))
-        summand = _strip_array(dvi.args[0])
+        summand = _unzip(_strip_array(dvi.args[0]))
     ex = Extractor(S)
     T = None
     if summand is not None:
@@ -252,6 +314,9 @@ def r09_3(chk: Check):
                     continue
                 elif _plain_target(d) is not None and isinstance(d.value, ast.Name) and d.value.id in prm:
                     continue
+                elif _unpack_index(d, tp.name) is not None and isinstance(d.value, ast.Tuple) and len(d.value.elts) == len(d.targets[0].elts) \
+                        and isinstance(d.value.elts[_unpack_index(d, tp.name)], ast.Name) and d.value.elts[_unpack_index(d, tp.name)].id in prm:
+                    continue        # `a, b = inputA, inputB`: the parallel spelling of two plain assignments
                 else:
                     okT = False
         ok = DV[0].args[0] == ex.sym(F[0]) and okT
@@ -306,18 +371,57 @@ def r09_3(chk: Check):
     chk.floor("R09.3", 12)
 
 
-def _weights_site(S, fi, W: str):
-    """(function, local) where the quadrature weights named W in `fi` are built: `fi` itself, or the method of the same class whose
-    result is stored in W (an extracted, not necessarily straight-line, helper)"""
-    for st in own_nodes(fi.node):
-        if isinstance(st, (ast.Assign, ast.AnnAssign)) and _plain_target(st) is not None and _plain_target(st).id == W and isinstance(st.value, ast.Call) \
-                and isinstance(st.value.func, ast.Attribute) and isinstance(st.value.func.value, ast.Name) and st.value.func.value.id == "self" and fi.cls:
-            h = S.modules[fi.module].funcs.get(f"{fi.cls}.{st.value.func.attr}")
-            if h is not None:
-                rets = [r for r in own_nodes(h.node) if isinstance(r, ast.Return) and isinstance(r.value, ast.Name)]
-                if len(rets) == 1:
-                    return h, rets[0].value.id
-    return fi, W
+def _class_helper(S, fi, call):
+    """the method of fi's own class called by `self.<m>(...)`, else None"""
+    f = call.func if isinstance(call, ast.Call) else None
+    if isinstance(f, ast.Attribute) and isinstance(f.value, ast.Name) and f.value.id == "self" and fi.cls:
+        return S.modules[fi.module].funcs.get(f"{fi.cls}.{f.attr}")
+    return None
+
+
+def _weights_site(S, fi, W: str, calls: dict):
+    """(function, local) where the quadrature weights W of `fi` are built: `fi` itself, or the method of the same class whose result
+    is W (an extracted, not necessarily straight-line, helper); W is a local of fi or a placeholder of `calls` (placeholder -> helper call)"""
+    sites = [calls[W]] if W in calls else [st.value for st in own_nodes(fi.node) if isinstance(st, (ast.Assign, ast.AnnAssign)) and _plain_target(st) is not None
+                                            and _plain_target(st).id == W]
+    for v in sites:
+        h = _class_helper(S, fi, v)
+        if h is not None:
+            rets = [r for r in own_nodes(h.node) if isinstance(r, ast.Return) and isinstance(r.value, ast.Name)]
+            if len(rets) == 1:
+                return h, rets[0].value.id
+    return (fi, W) if W not in calls else (None, None)
+
+
+def _quadrature_terms(S, fi):
+    """Term-level reading of Polynomial.integrate (evaluator shared with R16.3): {(direction, endpoints): decoded factor broadcast onto the
+    integrated axis}.  Independent of where and how the weights are built: loop body or helper (receiving direction / endpoints as
+    arguments, by position or keyword), per-axis attributes indexed or drawn from zip / enumerate, temporaries, comprehensions ..."""
+    cache = S.__dict__.setdefault("_c09_quadrature_terms", {})      # per source model (lives and dies with it)
+    if fi.name not in cache:
+        from .c16 import quadrature_factors
+        try:
+            cache[fi.name] = quadrature_factors(S, fi)[0]
+        except (Undecided, AnchorMissing):
+            cache[fi.name] = {}
+    return cache[fi.name]
+
+
+def _gcl_by_terms(S, fi) -> bool:
+    """for every (direction, endpoints): exactly one factor, sqrt(1 - x^2) * (weights free of x), with x the grid's compact coordinates of that axis"""
+    got = _quadrature_terms(S, fi)
+    return len(got) == 6 and all(v["n"] == 1 and v["sqrt"] and v["grid"] and v["scale"] is not None for v in got.values())
+
+
+def _z_weight_by_terms(S, fi) -> bool:
+    """for an integrated axis of direction 'z', with and without end points: that factor is sqrt(1 - x^2) * (pi / M) * (ones, end points halved)"""
+    from .c16 import M as GRID_M
+    got = _quadrature_terms(S, fi)
+    ok = True
+    for ep in (True, False):
+        v = got.get(("z", ep))
+        ok = ok and v is not None and v["n"] == 1 and v["sqrt"] and v["grid"] and v["scale"] is not None and sp.simplify(v["scale"] * GRID_M / sp.pi) == 1
+    return bool(ok)
 
 
 def r09_4(chk: Check):
@@ -326,7 +430,6 @@ def r09_4(chk: Check):
     fi = S.func("polynomial:Polynomial.integrate")
     chk.touch(fi.name)
     cx = Ctx(S, fi)
-    g = CFG(fi.node)
     wparam = "weight" if "weight" in fi.params() else None
     if wparam is None:
         raise AnchorMissing("Polynomial.integrate: parameter `weight` not found")
@@ -346,19 +449,34 @@ def r09_4(chk: Check):
                 and (eqx(x.value.left, INT) or eqx(x.value.right, INT)):
             mult.append(x.value.right if eqx(x.value.left, INT) else x.value.left)
     W = None
+    calls: dict = {}
     if len(mult) == 1:
-        for y in ast.walk(cx.resolve(mult[0], keep={wparam})):
+        # C: the compact coordinates of the integrated axis -- a local that only ever holds self.grid.getCompactCoordinates(..), or (when the
+        # context looks through that local) the call itself; W: the weights -- a local, or (looked through) the call of the method that builds
+        # them.  Such calls are given placeholder names so that one pattern covers both
+        GCC = "_gcc_call_"
+
+        class Nodes(ast.NodeTransformer):
+            def visit_Call(self, x):
+                if eqx(x.func, "self.grid.getCompactCoordinates"):
+                    return ast.copy_location(ast.Name(id=GCC, ctx=ast.Load()), x)
+                if _class_helper(S, fi, x) is not None and x.func.attr.startswith("_") and not x.func.attr.startswith("__"):
+                    nm = f"_helper_call_{len(calls)}_"
+                    calls[nm] = x
+                    return ast.copy_location(ast.Name(id=nm, ctx=ast.Load()), x)
+                return self.generic_visit(x)
+
+        for y in ast.walk(Nodes().visit(cx.resolve(mult[0], keep={wparam}))):
             b = match(y, "np.sqrt(1 - __C ** 2) * __W") if isinstance(y, ast.BinOp) else None
-            if b is not None:
-                # C: the compact coordinates of the integrated axis
-                cdef = cx.local_defs().get(b["C"])
+            if b is not None and b["W"] != GCC and b["C"] not in calls:
                 cands = [st.value for st in own_nodes(fi.node) if isinstance(st, (ast.Assign, ast.AnnAssign)) and _plain_target(st) is not None and _plain_target(st).id == b["C"]]
-                if cands and all(isinstance(v, ast.Call) and eqx(v.func, "self.grid.getCompactCoordinates") for v in cands):
+                if b["C"] == GCC or (cands and all(isinstance(v, ast.Call) and eqx(v.func, "self.grid.getCompactCoordinates") for v in cands)):
                     W = b["W"]
-    chk.ob("R09.4", fi.where(), "quadrature: each integrated axis is multiplied by sqrt(1 - chi^2) * (pi / M) weights (Gauss-Chebyshev-Lobatto)", W is not None, key="gcl-weight")
+    chk.ob("R09.4", fi.where(), "quadrature: each integrated axis is multiplied by sqrt(1 - chi^2) * (pi / M) weights (Gauss-Chebyshev-Lobatto)",
+           W is not None or _gcl_by_terms(S, fi), key="gcl-weight")
     zw = False
-    if W is not None:
-        fh, Wh = _weights_site(S, fi, W)
+    fh, Wh = _weights_site(S, fi, W, calls) if W is not None else (None, None)
+    if fh is not None:
         chk.touch(fh.name)
         gh = CFG(fh.node)
         ch = Ctx(S, fh)
@@ -368,7 +486,7 @@ def r09_4(chk: Check):
                     e, pol = _positive(t, pol, ch)
                     if pol and match(e, "self.direction[__I] == 'z'") is not None:
                         zw = True
-    chk.ob("R09.4", fi.where(), "quadrature: the z direction uses pi / M", zw, key="z-weight")
+    chk.ob("R09.4", fi.where(), "quadrature: the z direction uses pi / M", zw or _z_weight_by_terms(S, fi), key="z-weight")
     chk.floor("R09.4", 3)
 
 
